@@ -388,7 +388,17 @@ class Manager:
         return method
 
     def removeHandler(self, method, event=None):
-        names = method.names if event is None else [event]
+        if event is not None:
+            names = [event]
+        elif method.names:
+            names = method.names
+        elif method.channel == '*':
+            # a handler for all events on all channels is kept apart
+            self._globals.remove(method)
+            names = ()
+        else:
+            # a handler for all events lives in the catch-all table
+            names = ('*',)
 
         for name in names:
             self._handlers[name].remove(method)
